@@ -13,13 +13,13 @@ RULE = ('pairs of executions of one generated model: (a) run(T1); continue(T2) [
         'lock decision are excluded from (a). non-trivial = split strictly inside the run with a state- or time-dependent load; distinct by topology x schedule shape x units')
 ASSUMPTIONS = ['continuation uses the same Solver object (documented usage); initial conditions = position and speed of the last element and the motor duty cycle',
                'series compared at 1e-9 relative with a floor of 1e-9 of the series maximum']
-HEADLINE = ['pairs_continuation', 'pairs_reset', 'unit_change_pairs', 'three_way_splits', 'ended_run1_locked', 'bit_exact_series', 'new_solver_reruns',
+HEADLINE = ['rely_on_reset_for_duty_cycle', 'reset_pwm_guard_excluded', 'pairs_continuation', 'pairs_reset', 'unit_change_pairs', 'three_way_splits', 'ended_run1_locked', 'bit_exact_series', 'new_solver_reruns',
             'same_solver_reruns', 'excluded_near_threshold', 'instants_compared']
 
 
 def floors(tier):
     return {'pairs_continuation': 200, 'pairs_reset': 150, 'unit_change_pairs': 80, 'ended_run1_locked': 20, 'bit_exact_series': 3000, 'new_solver_reruns': 40,
-            'same_solver_reruns': 40, 'three_way_splits': 30, 'set:nontrivial': 40}
+            'same_solver_reruns': 40, 'three_way_splits': 30, 'rely_on_reset_for_duty_cycle': 40, 'set:nontrivial': 40}
 
 
 def n_cases(tier):
@@ -46,6 +46,14 @@ def model(rng, i):
     n = spec['_ref']['n']
     if m in (0, 3, 4) or rng.random() < 0.25:
         half_step_rules(rng, spec, n)
+    if m in (1, 2) and rng.random() < 0.6:
+        # a run that *ends* with a zero or reversed duty cycle (state that reset() has to undo), with and without motor current data
+        dts = GEN.qsi(spec['schedule'][0]['dt'])
+        k0 = rng.randint(n // 3, max(n // 3 + 1, n - 3)) + 0.5
+        spec['rules'] = [{'type': 'const', 'start': GEN.Q('Time', GEN.sig(k0 * dts, 12), 'sec'), 'dur': GEN.Q('TimeInterval', GEN.sig(3 * n * dts, 12), 'sec'),
+                          'value': rng.choice([0, 0, -1, -0.5])}]
+        if rng.random() < 0.5:
+            spec['motor']['i0'] = spec['motor']['imax'] = None
     return spec, n
 
 
@@ -164,6 +172,12 @@ def pair_reset(ctx, i, spec, n, rng, case):
     new_solver = rng.random() < 0.5
     sp = copy.deepcopy(spec)
     sp['schedule'] = block + [{'op': 'reset'}, {'op': 'reapply'}] + ([{'op': 'newsolver'}] if new_solver else []) + copy.deepcopy(block)
+    # variant: the user re-applies position and speed only and relies on reset() to restore the duty cycle. Sound only when
+    # the restored value (first *recorded* duty cycle, i.e. after control) is lock-equivalent to the one the first run started
+    # with: same sign class, or no self-locking mating (judged below, after the first run is known).
+    rely_on_reset_pwm = sp['ic'].get('pwm') is None and rng.random() < 0.5
+    if rely_on_reset_pwm:
+        sp['reapply_pwm'] = False
     case = dict(case, pair='reset')
     try:
         b, runs, t2 = execute(sp, raw=True)
@@ -181,10 +195,16 @@ def pair_reset(ctx, i, spec, n, rng, case):
             ctx.violation('C12:rerun-failure-mismatch', {'first': e1, 'rerun': e2}, case)
         ctx.count('failed_pairs')
         return
+    ana = MON.Ana(spec, t1, r1)
+    if rely_on_reset_pwm:
+        sgn = lambda x: (x > 0) - (x < 0)
+        if ana.nums['self_locking'] and t1.pwm and sgn(t1.pwm[0]) != sgn(r1[0]['pwm_before']):
+            ctx.count('reset_pwm_guard_excluded')
+            return
+        ctx.count('rely_on_reset_for_duty_cycle')
     ctx.count('pairs_reset')
     ctx.count('evaluations')
     ctx.count('new_solver_reruns' if new_solver else 'same_solver_reruns')
-    ana = MON.Ana(spec, t1, r1)
     if ana.nums['self_locking'] and ana.N and ana.states[ana.N - 1] == {True}:
         ctx.count('ended_run1_locked')
     diff = None
